@@ -104,6 +104,15 @@ CELLS = [
     ("list_strs", lambda: ["a", "b"]),
     ("list_unhashable", lambda: [[1]]),
     ("list_dups", lambda: ["A", "A"]),
+    ("list_a_nope", lambda: ["a", "nope"]),
+    ("list_a", lambda: ["a"]),
+    ("list_a_inner", lambda: ["a", ["b"]]),
+    ("list_b_a", lambda: ["b", "a"]),
+    ("tuple_ab", lambda: ("a", "b")),
+    ("set_a", lambda: {"a"}),
+    ("dict_a", lambda: {"a": 1}),
+    ("str_a", lambda: "a"),
+    ("iter_ab", lambda: iter(["a", "b"])),
     ("tuple_empty", lambda: ()),
     ("tuple_ints", lambda: (1, 2)),
     ("tuple_one", lambda: (1,)),
